@@ -32,6 +32,9 @@ def hevc_sets(ck):
     # parameter sets the decoder rejects: the record keeps its partial fields
     sets.append((b"\x40\x01\x0c", b"\x42\x01\x01", b"\x44\x01"))
     sets.append((sets[0][0], sets[1][1], b""))
+    # a parameter set still unknown: the muxer must drop every frame
+    sets.append((b"", sets[1][1], sets[1][2]))
+    sets.append((sets[0][0], b"", sets[0][2]))
     lines = [vlib.vs(list(t)) for t in sets]
     obs = vlib.run_vh(ck.prop, "hvcc", lines)
     out = []
